@@ -57,6 +57,30 @@ func scaleHistory(n int) []Block {
 	return bs
 }
 
+// wideBlockHistory: a single block adding more than 65535 leaves (a 16-bit addition counter wraps)
+// on top of a forest whose trees are partly empty roots, which that block writes over; then a
+// block deleting across the new leaves.
+func wideBlockHistory(adds int) []Block {
+	const big, mid = 1 << 15, 1 << 14 // trees of 32768, 16384, 4 and 1 leaves
+	n0 := big + mid + 5
+	var bs []Block
+	bs = append(bs, Block{Add: n0, Rem: []int{0, 3, big, n0 - 1}, DM: "none", AM: "wide-setup"})
+	// the 16384-, 4- and 1-leaf trees become empty roots: the first two go after 1 and 3 additions, the
+	// large one only after 16384 additions of the wide block
+	var d []int
+	for s := big; s < n0; s++ {
+		d = append(d, s)
+	}
+	bs = append(bs, Block{Del: d, Add: 0, DM: "wide-empty-roots", AM: "0"})
+	bs = append(bs, Block{Del: []int{3}, Add: adds, Rem: []int{0, 1, adds - 1}, DM: "wide", AM: "wide"})
+	d = []int{n0, n0 + adds - 1}
+	for s := n0 + 100; s < n0+adds; s += 4099 {
+		d = append(d, s)
+	}
+	bs = append(bs, Block{Del: d, Add: 3, Rem: []int{2}, DM: "wide-after", AM: "3"})
+	return bs
+}
+
 func scaleSizes() []int {
 	if thorough() {
 		return []int{1 << 10, 1 << 12, 1 << 13, 1 << 14, 1 << 15}
@@ -87,8 +111,18 @@ func preScaleC01(t *testing.T) {
 			}
 		}
 	}
+	unit++
+	if (unit-1)%nshards == shard {
+		c := C01Case{Blocks: wideBlockHistory(70001), Maps: []Cfg{{Kind: "map", Full: true, Rows: 63}, {Kind: "map", Rows: 0}}}
+		res := safeRun(runC01, c)
+		done++
+		if res.Err != nil {
+			rec.fail(res.Err.Error(), caseJSON(c), false)
+			t.Fatalf("wide-block probe: %v", res.Err)
+		}
+	}
 	rec.bulk(done, done)
-	rec.extra("scale_probes", fmt.Sprintf("deterministic histories on %v leaves (leaves climbing two rows, a half emptied with n/2 targets, climbed leaves deleted together with row-0 twins, power-of-two crossing), each on 2 map configurations, dealt over shards", scaleSizes()))
+	rec.extra("scale_probes", fmt.Sprintf("deterministic histories on %v leaves (leaves climbing two rows, a half emptied with n/2 targets, climbed leaves deleted together with row-0 twins, power-of-two crossing), each on 2 map configurations, dealt over shards; plus one block adding 70001 leaves over empty roots", scaleSizes()))
 }
 
 func preScaleC02(t *testing.T) {
@@ -192,8 +226,27 @@ func preScaleC06(t *testing.T) {
 			}
 		}
 	}
+	unit++
+	if (unit-1)%nshards == shard {
+		// one block adding more than 65535 leaves over empty roots, undone, re-applied on another branch, all undone
+		bs := wideBlockHistory(70001)
+		c := C06Case{Cfgs: []Cfg{{Kind: "pollard"}, {Kind: "map", Full: true, Rows: 63}, {Kind: "map", Rows: 63}, {Kind: "map", Rows: 0, Direct: true}}}
+		for i := range bs {
+			b := bs[i]
+			c.Steps = append(c.Steps, C06Step{Op: "block", B: &b})
+		}
+		alt := bs[2]
+		alt.Salt = 1
+		c.Steps = append(c.Steps, C06Step{Op: "undo"}, C06Step{Op: "undo"}, C06Step{Op: "block", B: &alt}, C06Step{Op: "undo"}, C06Step{Op: "undo"}, C06Step{Op: "undo"})
+		res := safeRun(runC06, c)
+		done++
+		if res.Err != nil {
+			rec.fail(res.Err.Error(), caseJSON(c), false)
+			t.Fatalf("wide-block probe: %v", res.Err)
+		}
+	}
 	rec.bulk(done, done)
-	rec.extra("scale_probes", fmt.Sprintf("deterministic history on %v leaves (blocks with up to n/2 targets incl. climbed leaves), undone to depth 3, another branch applied and everything undone to the empty forest, on 2 configurations each", sizes))
+	rec.extra("scale_probes", fmt.Sprintf("one block adding 70001 leaves over empty roots applied, undone, re-applied on another branch and undone; deterministic history on %v leaves (blocks with up to n/2 targets incl. climbed leaves), undone to depth 3, another branch applied and everything undone to the empty forest, on 2 configurations each", sizes))
 }
 
 // scaleHistoryRem is scaleHistory with a sparse set of leaves of the first block remembered (every
